@@ -12,7 +12,8 @@ EXPLANATION = ("Every function between the leaf handlers and the dispatch is sym
 
 
 def build(world):
-    return hc.build_for(world, PROP)
+    from . import gateway_units as gu
+    return hc.build_for(world, PROP) + gu.model_units(world)
 
 
 def replay(world, ob):
